@@ -308,6 +308,10 @@ func c16Worker(w *W) {
 		c16Parked(w)
 		return
 	}
+	if w.Spec.Kind == "builtincycles" {
+		c16BuiltinCycles(w)
+		return
+	}
 	registerMonitorPlugins()
 	rn := &c16run{w: w, sink: &chunkSink{}}
 	log.Stdout = rn.sink
@@ -446,6 +450,7 @@ func init() {
 				s.Flavour = "race"
 				specs = append(specs, s)
 			}
+			specs = append(specs, d.NewSpec("builtincycles", "builtincycles", 401, 16))
 			pk := d.NewSpec("parked", "parked", 400, 16)
 			pk.N = d.Pick(6, 40)
 			specs = append(specs, pk)
